@@ -123,10 +123,11 @@ def strategy(tier):
   row = st.lists(sel, min_size=len(SRC_COLS) + 1, max_size=len(SRC_COLS) + 1)
   prow = st.lists(sel, min_size=len(PROBECOLS), max_size=len(PROBECOLS))
   keyspec = st.tuples(st.integers(0, len(KEYCOLS) - 1), st.integers(0, 2), sel, st.booleans(), st.integers(0, 5)).map(list)
-  order = st.tuples(st.integers(0, 8), st.lists(st.tuples(st.integers(0, 3), st.booleans()).map(list), min_size=1, max_size=3),
+  order = st.tuples(st.sampled_from([0, 1, 2, 2, 3, 3, 4, 5, 6, 7, 8]), st.lists(st.tuples(st.integers(0, 3), st.booleans()).map(list), min_size=1, max_size=3),
                     st.booleans()).map(list)
-  lookup = st.fixed_dictionaries({'one': st.booleans(), 'keys': st.lists(keyspec, min_size=0, max_size=2), 'ord': order})
-  op = st.tuples(st.integers(0, 11), sel, sel, sel, st.lists(sel, min_size=0, max_size=len(SRC_COLS))).map(list)
+  lookup = st.fixed_dictionaries({'one': st.booleans(), 'keys': st.one_of(st.lists(keyspec, min_size=1, max_size=2), st.lists(keyspec, min_size=0, max_size=2)),
+                                  'ord': order})
+  op = st.tuples(st.sampled_from(list(range(12))), sel, sel, sel, st.lists(sel, min_size=0, max_size=len(SRC_COLS))).map(list)
   bundle = st.lists(op, min_size=1, max_size=3)
   return st.fixed_dictionaries({
     'cls': st.integers(0, 2),
@@ -293,6 +294,7 @@ class Checker(object):
     self.probe_types = dict(PROBECOLS)
     self.judged_nontrivial = set()      # lookup indices judged with >=2 matches or explicit order
     self.judged_after_edit = set()
+    self.last_edit = None
 
   def refresh_types(self):
     self.src_types = column_types(self.d, 'Src')
@@ -396,24 +398,24 @@ class Checker(object):
     out = self.out
     modes = '+'.join(sorted(set('%s-%s' % (m, R.pure(self.src_types.get(c, '?'))) for c, m, _, _, _ in lk['conds']))) or 'all'
     detail = {'formula': lk['formula'], 'probe_row': pi + 1, 'got': got, 'expected': exp, 'stage': stage,
-              'sort_spec': spec}
+              'last_bundle': self.last_edit, 'sort_spec': spec}
+    stage_txt = stage if stage == 'initial' else 'after ' + self.last_edit
     if R_is_error(got):
       out.fail('C13:lookup-raised:%s:%s:%s' % (got[1] if len(got) > 1 else '?', modes, stage),
-               '%s raised %r where the reference expects %r (%s)' % (lk['formula'], got, exp, stage), detail)
+               '%s raised %r where the reference expects %r (%s)' % (lk['formula'], got, exp, stage_txt), detail)
       return
     gids = got[2] if (isinstance(got, list) and len(got) == 3 and got[0] == 'r') else None
     if not lk['one'] and gids is not None and sorted(gids) == sorted(exp[2]) and len(set(gids)) == len(gids):
-      okind = lk['order'][0] if lk['order'][0] != 'order_by' else 'order_by'
       out.fail('C13:order:%s:%s' % (order_label(lk['order']), stage),
-               '%s returns the right rows in the wrong order: %r, documented order %r (%s)' % (lk['formula'], gids, exp[2], stage),
+               '%s returns the right rows in the wrong order: %r, documented order %r (%s)' % (lk['formula'], gids, exp[2], stage_txt),
                detail)
       return
     if lk['one']:
       out.fail('C13:lookupOne:%s:%s:%s' % (modes, order_label(lk['order']), stage),
-               '%s = %r, reference %r (%s)' % (lk['formula'], got, exp, stage), detail)
+               '%s = %r, reference %r (%s)' % (lk['formula'], got, exp, stage_txt), detail)
       return
     out.fail('C13:rows:%s:%s' % (modes, stage),
-             '%s = %r, the matching rows are %r (%s)' % (lk['formula'], got, exp, stage), detail)
+             '%s = %r, the matching rows are %r (%s)' % (lk['formula'], got, exp, stage_txt), detail)
 
 
 def R_is_error(v):
@@ -484,8 +486,8 @@ def run_case(case):
       ck.refresh_types()
     if any(k != 'probe-edit' for k in kinds):
       n_src_edits += 1
-    stage = 'after:' + '+'.join(sorted(set(kinds)))
-    failed = ck.check(stage, n_src_edits > 0)
+    ck.last_edit = '+'.join(sorted(set(kinds)))
+    failed = ck.check('after-edit', n_src_edits > 0)
   out['concrete'] = d.concrete_history()[1:]
   out['nontrivial'] = bool(ck.judged_after_edit)
   return out
